@@ -3,6 +3,7 @@ import PyTrie.Lemmas.BinRawRefines
 import PyTrie.Lemmas.ReadRefines
 import PyTrie.Lemmas.IterRefines
 import PyTrie.Lemmas.RawHistory
+import PyTrie.Lemmas.RawHistoryGet
 import PyTrie.Lemmas.YellowPaper
 /-! # The raw-level write path refines the effect layer (tightens the tie for C01, C02, C04, C05, C06, C07)
 
@@ -125,5 +126,16 @@ theorem history_root_is_yellow_paper (H : Bytes → Bytes) (hlen : ∀ b, (H b).
     ∃ db, rawRun H ops (blankRoot H, []) = .ok (YP.ypRoot H (YP.height (run ops)) (itemsOf (run ops)), db) := by
   obtain ⟨db, hr⟩ := rawRun_root H hlen ops T s h hbk hsm
   exact ⟨db, by rw [hr, YP.rootHash_eq_ypRoot H (run ops) (PyTrie.Props.C01.canon_run ops) _ (Nat.le_refl _)]⟩
+
+/-- **C01 end to end at raw level**: run any history through the raw-level `set` / `delete`, then look any key up
+    through the database (`getD`: `HexaryTrie.get` over rlp-decoded nodes fetched from that database): the result is
+    the last value stored under the key, `b""` if there is none or it was deleted — and no exception -/
+theorem history_get (H : Bytes → Bytes) (hlen : ∀ b, (H b).length = 32) (ops : List Op) (T : TrieSt) (s : OpSt)
+    (h : ReachOps (stdHashing H) (blankRoot H) false ops T s)
+    (hbk : Dict.get? s.store.base (blankRoot H) = none)
+    (hsm : ∀ h b, Dict.get? s.store.base h = some b → b.length < 2 ^ 64) (key : Bytes) :
+    ∃ db, rawRun H ops (blankRoot H, []) = .ok (rootHash H (run ops), db) ∧
+      getD H db (rootHash H (run ops)) (nibs key) = .ok (spec ops key) :=
+  rawRun_get H hlen ops T s h hbk hsm key
 
 end PyTrie.Props.Raw
